@@ -1,6 +1,8 @@
-(* C05 property theorems (parameter blocks; the message decoders are added as they are proved). *)
+(* C05 property theorems: parameter blocks, schedules, and the message / schema / alerts / password decoders. *)
 From Coq Require Import NArith List Bool.
-From PV Require Import Model.ParamBlocks Spec.C05p Proofs.C05pFacts.
+From PV Require Import Model.ParamBlocks Spec.C05p Proofs.C05pFacts Spec.C05s Proofs.C05sFacts.
+Import ListNotations.
+Open Scope N_scope.
 
 Theorem C05_ecomax_params : C05_ecomax_params_statement.
 Proof. exact C05pFacts.C05_ecomax_params. Qed.
@@ -16,3 +18,27 @@ Proof. exact C05pFacts.C05_thermostat_none. Qed.
 Theorem C05_schedules : C05_schedules_statement.
 Proof. exact C05pFacts.C05_schedules. Qed.
 Print Assumptions C05_schedules.
+
+(* sensor-data message: the sixteen chained section decoders recover the documented view of ANY
+   well-formed value from its wire layout and stop exactly at its end *)
+Theorem C05_sensor : C05_sensor_statement.
+Proof. exact C05sFacts.C05_sensor. Qed.
+Print Assumptions C05_sensor.
+Theorem C05_schema : C05_schema_statement.
+Proof. exact C05sFacts.C05_schema. Qed.
+Print Assumptions C05_schema.
+Theorem C05_alerts : C05_alerts_statement.
+Proof. exact C05sFacts.C05_alerts. Qed.
+Print Assumptions C05_alerts.
+Theorem C05_password : C05_password_statement.
+Proof. exact C05sFacts.C05_password. Qed.
+Print Assumptions C05_password.
+
+(* non-vacuity: a value with every optional section present meets wf_sensor *)
+Example C05_sensor_nonvacuous :
+  wf_sensor (mkSV [(49, 37); (50, 5)] 3 4097 28 [(0, 1101004800); (1, 2143289344); (200, 1101004800)]
+                  [1; 2; 3; 4] [7; 9] 130 25 1103626240 50 1092616192 2143289344 1
+                  [Some [1; 2; 3; 75; 49]; None; Some [4; 5; 6]; None; None; Some [7; 8; 9]]
+                  (Some (1, 2, 300)) (Some (9, [mkTV 1 1101004800 1101004800; mkTV 0 2143289344 1101004800]))
+                  [mkMV 1101004800 40 0 1 0; mkMV 2143289344 0 0 0 0]) = true.
+Proof. vm_compute. reflexivity. Qed.
